@@ -38,3 +38,9 @@ def optimiser_exhausted(f):
 
 def start_by_name_with_cached_tree(f):
     return bool(f.get("start_option")) and bool(f.get("tree_cached_before_walk"))
+
+
+def residue_pair_joined_by_nonbond_only(f):
+    """every requested residue edge that is not realised by a bond/constraint/virtual site is realised by some
+    other interaction (angle, dihedral) of a link - and nothing else is wrong"""
+    return f.get("nonbond_only_pairs", 0) >= 1 and f.get("unexplained_pairs", 0) == 0
